@@ -212,10 +212,17 @@ def closeS (rp : List (Nat × Bytes)) : Nat → S → List SOut → S × List SO
           let r := accept a.1 (repubPub target pl)
           let r2 := closeS rp fuel r.1 r.2
           (r2.1, a.2 ++ r2.2)) (acc.1, [])
+      -- Messages on topics beginning with '$' are outside the properties' quantifier: the reference
+      -- broker forwards and retains them like any other, this broker turns them away at the topic
+      -- store, and the oracle does not compare such copies (props_broker.py `_drop_sys`).  A
+      -- republishing callback of this broker therefore never sees one; nothing is republished for
+      -- them here either.
+      let sys (p : Pub) : Bool := p.topic.head? == some 36
       match o with
       | .deliver ow l =>
         match rp.lookup ow with
         | some target =>
+          if l.any sys then (acc.1, acc.2 ++ [o]) else
           -- a callback holding several matching subscriptions is called once or several times: then
           -- the number of nested publishes is not fixed by the properties
           if l.length != 1 then (acc.1, acc.2 ++ [o, .unspecified]) else
@@ -225,7 +232,7 @@ def closeS (rp : List (Nat × Bytes)) : Nat → S → List SOut → S × List SO
       | .retained ow l =>
         match rp.lookup ow with
         | some target =>
-          let r := nested (l.map (·.payload)) target
+          let r := nested ((l.filter (fun p => !sys p)).map (·.payload)) target
           (r.1, acc.2 ++ [o] ++ r.2)
         | none => (acc.1, acc.2 ++ [o])
       | _ => (acc.1, acc.2 ++ [o])) (s, [])
